@@ -13,12 +13,14 @@
    str() of a cell value, strftime of dates, ndarray.tolist(), str of list items /
    dictionary keys and values.  Everything the anchored code does with those texts
    (dispatch, padding, cutting, width accounting, tokens, labels, selection) is here. *)
-From Coq Require Import List NArith ZArith Bool Arith Ascii String.
+From Coq Require Import Ascii String.
+From Coq Require Import List NArith ZArith Bool Arith.
 From Orso Require Import Gen.C18_Tables.
 Import ListNotations.
+Local Open Scope list_scope.
 
 Definition text := list N.
-Definition T (s : string) : text := map N_of_ascii (list_ascii_of_string s).
+Definition T (s : String.string) : text := map Ascii.N_of_ascii (String.list_ascii_of_string s).
 
 Inductive exn := ValueError | TypeError | UnicodeDecodeError.
 Inductive result (A : Type) := Ok (a : A) | Raise (e : exn).
@@ -152,7 +154,7 @@ Definition blob_decode_replace : bool := true.
 
 (* ------------------------------------------------------------------ *)
 (* colour tokens *)
-Definition tok (name : string) : text := (1%N :: T name) ++ [109%N].
+Definition tok (name : String.string) : text := (1%N :: T name) ++ [109%N].
 Definition OFF := tok "OFF".
 
 (* character_width: 2 when unicodedata.east_asian_width is one of the classes of line 303 *)
@@ -439,7 +441,7 @@ Definition BAR := 9474%N.   (* │ *)
 Definition rule (l m r fill : N) (iw : nat) (ws : list nat) : text :=
   [l] ++ repeat fill iw ++ [m; fill] ++ join [fill; m; fill] (map (repeat fill) ws) ++ [fill; r].
 
-Definition head_line (tk : string) (iw : nat) (cells : list text) (ws : list nat) : text :=
+Definition head_line (tk : String.string) (iw : nat) (cells : list text) (ws : list nat) : text :=
   [BAR] ++ spaces iw ++ [BAR; 32%N]
   ++ join [32%N; BAR; 32%N] (map (fun vw => tok tk ++ take (snd vw) (center (snd vw) (fst vw)) ++ OFF) (combine cells ws))
   ++ [32%N; BAR].
@@ -554,9 +556,13 @@ Fixpoint scan (s : text) (ign : bool) : nat * bool :=
 Definition pw (s : text) : nat := fst (scan s false).
 
 (* 61-bit polynomial digest of a text (the real output travels as length + digest) *)
-Definition DIGEST_P : N := 2305843009213693951%N.
+Definition DIGEST_P : N := 2305843009213693951%N.     (* 2^61 - 1 *)
+(* x mod (2^61 - 1) for x < 2^122, the Mersenne way (no division) *)
+Definition mod61 (x : N) : N :=
+  let y := (N.land x DIGEST_P + N.shiftr x 61)%N in
+  if (DIGEST_P <=? y)%N then (y - DIGEST_P)%N else y.
 Definition digest (s : text) : N :=
-  fold_left (fun h c => ((h * 1000003 + c + 1) mod DIGEST_P)%N) s 7%N.
+  fold_left (fun h c => mod61 (h * 1000003 + c + 1)%N) s 7%N.
 
 Inductive obs :=
 | ORaise (e : exn)
